@@ -126,6 +126,9 @@ type ListRes struct {
 	Out     string
 	OutErr  error
 	Exposed []XPeer
+	// ScanErrs: errors returned by fsscanner when the resource-info entry point is used (unreadable files never
+	// reach the analyzer there, they are reported by the scanner)
+	ScanErrs []string
 }
 
 func (r *ListRes) Failed() bool { return r.Panic != nil || r.Err != nil }
@@ -185,7 +188,10 @@ func RunList(dir string, o ListOpts) (res *ListRes) {
 	var peers []connlist.Peer
 	var err error
 	if o.ViaInfos {
-		infos, _ := fsscanner.GetResourceInfosFromDirPath([]string{dir}, true, o.StopOnError)
+		infos, scanErrs := fsscanner.GetResourceInfosFromDirPath([]string{dir}, true, o.StopOnError)
+		for _, e := range scanErrs {
+			res.ScanErrs = append(res.ScanErrs, e.Error())
+		}
 		conns, peers, err = ca.ConnlistFromResourceInfos(infos)
 	} else {
 		conns, peers, err = ca.ConnlistFromDirPath(dir)
